@@ -348,6 +348,10 @@ def run(R):
     R.rule("C16-R4", "keyword case never reaches the tree: the text matched by the case-insensitive keyword helper (whose letter case is "
                      "the user's) is only tested or skipped; it never flows into a value a parser returns - parsers put canonical "
                      "literals into the syntax tree")
+    R.rule("C16-R5", "nothing parsed is discarded: whatever a sub-parser of parser.rs returns as its payload flows into the value the "
+                     "calling parser returns (or decides a branch); a payload may be ignored only by a recogniser that returns the "
+                     "consumed source slice computed from the remainder (`input[..input.len() - rest.len()]`). A modifier or pattern "
+                     "that is parsed and dropped is accepted text that silently changes the tree")
     ents = [b for b in (prog.one(e, crate="kolibrie") for e in ENTRIES)]
     for e, b in zip(ENTRIES, ents):
         R.anchor("C16-R1", e, b)
@@ -360,6 +364,7 @@ def run(R):
     r2(R)
     r3(R, bodies)
     r4(R, bodies)
+    r5(R)
 
 
 def certify(R, prog, bodies, rule):
@@ -664,3 +669,130 @@ def r4(R, bodies):
         else:
             R.ob("C16-R4", "clean:%s" % b.short, "%s never reads the text matched by a keyword" % b.short, True, where=b.where())
     R.floor("C16-R4", "keyword match sites", nsites, 40)
+
+
+# ---------------------------------------------------------------- R5 nothing parsed is discarded
+
+_TOKENS = {"sparql_keyword", "sparql_char", "sparql_skip_ws", "sparql_error", "sparql_starts_keyword"}
+# audited exceptions: (calling parser, sub-parser) -> reason
+_R5_EXCEPTIONS = {
+    ("parse_sparql_query", "sparql_prefixes"): "documented: the prologue is accepted and skipped; SelectQuery has no prefix map (parse_combined_query keeps it)",
+    ("parse_rule_call", "variable"): "the tree type RuleHead has no slot for call arguments (legacy rule-call syntax)",
+}
+
+
+def _remainder_len_idiom(b, call):
+    """the remainder of `call` is measured (rest.len()) and subtracted from another length: the caller returns the consumed slice"""
+    fam_rem = set()
+    m = {}
+    # locals holding the remainder component
+    work = [call.dest["l"]]
+    seen = set()
+    while work:
+        l = work.pop()
+        if l in seen:
+            continue
+        seen.add(l)
+        for (bb, where, kind, pl) in b.uses().get(l, []):
+            if pl is None:
+                continue
+            if any(e["k"] == "downcast" and e.get("n") in ("Break", "Err", "None") for e in pl["p"]):
+                continue
+            comp = _tuple_component(pl)
+            if where[0] == "st":
+                st = b.blocks[bb]["st"][where[1]]
+                if st["rv"]["rv"] == "discriminant":
+                    continue
+                if comp == 0:
+                    fam_rem.add(st["pl"]["l"])
+                elif comp is None:
+                    work.append(st["pl"]["l"])
+            else:
+                t = b.blocks[bb]["term"]
+                if t["t"] == "call":
+                    c = next(x for x in b.calls() if x.bb == bb)
+                    if comp is None and c.name() in _TRANSPARENT and not c.dest["p"]:
+                        work.append(c.dest["l"])
+    # remainder aliases
+    rems = set(fam_rem)
+    for _ in range(4):
+        for bb, i, pl, rv, st in b.assigns():
+            if not pl["p"] and rv["rv"] in ("use", "ref"):
+                src = F.op_place(rv["op"]) if rv["rv"] == "use" else rv["pl"]
+                if src is not None and src["l"] in rems and not [e for e in src["p"] if e["k"] != "deref"]:
+                    rems.add(pl["l"])
+    for c in b.calls():
+        if c.name() == "len" and c.args:
+            pl = F.op_place(c.args[0])
+            if pl is not None and (pl["l"] in rems or b.alias_root(c.args[0]) in rems):
+                # the length feeds a subtraction
+                for bb, i, pl2, rv, st in b.assigns():
+                    if rv["rv"] == "binop" and rv["op"].startswith("Sub"):
+                        for o in (rv["a"], rv["b"]):
+                            if F.op_place(o) is not None and b.alias_root(o) == c.dest["l"]:
+                                return True
+    return False
+
+
+def r5(R):
+    prog = R.prog
+    scope = [b for b in prog.bodies.values() if b.crate == "kolibrie" and b.file.endswith("parser.rs") and "::tests::" not in b.key]
+    fnkeys = {b.key for b in scope if not b.is_closure}
+
+    def is_parser(b):
+        rt = b.local_ty(0)
+        return rt.startswith("core::result::Result<(&") and "nom::internal::Err" in rt
+    nsites = 0
+    used_exc = set()
+    for b in sorted(scope, key=lambda x: x.key):
+        if b.is_closure or not is_parser(b):
+            continue
+        fam = prog.family(b.key)
+        for x in fam:
+            for c in x.calls():
+                if c.key not in fnkeys or c.name() in _TOKENS:
+                    continue
+                callee = prog.bodies[c.key]
+                if not is_parser(callee):
+                    continue
+                rt = callee.local_ty(0)
+                if rt.startswith("core::result::Result<(&str, ())") or ", char)" in rt.split("nom::internal")[0]:
+                    continue
+                nsites += 1
+                m, e, ret = keyword_flows(prog, x, {c.dest["l"]}, set(), {})
+                if ret:
+                    continue            # the whole result is returned (wrapper / alternative)
+                key = (b.name, c.name())
+                ok = True
+                why = None
+                if not m and not e:
+                    if _remainder_len_idiom(x, c):
+                        continue        # recogniser: returns the consumed source slice
+                    ok, why = False, "the payload is never read"
+                else:
+                    T = Taint(prog, b)
+                    for l, ln in m.items():
+                        T.seed(x, l, "payload")
+                    for (xb, ec) in e:
+                        T.seed(xb, ec.dest["l"], "payload")
+                    T.run()
+                    reaches = "payload" in T.get(b, 0)
+                    if not reaches:
+                        # or it decides a branch
+                        for y in fam:
+                            for bb, t in y.terms():
+                                if t["t"] == "switch" and "payload" in T.op_taint(y, t["discr"]):
+                                    reaches = True
+                    if not reaches:
+                        ok, why = False, "the payload is read but neither returned nor tested"
+                if not ok and key in _R5_EXCEPTIONS:
+                    used_exc.add(key)
+                    R.advisory("C16-R5", "audited exception %s <- %s: %s" % (key[0], key[1], _R5_EXCEPTIONS[key]))
+                    continue
+                if not ok:
+                    R.ob("C16-R5", "kept:%s:%s" % (b.name, c.name()), "%s keeps what %s parsed" % (b.name, c.name()), False, where=x.where(c.ln),
+                         detail=why + ": the text is accepted but this part of it does not appear in the syntax tree")
+        R.saw(b)
+    R.ob("C16-R5", "sites", "sub-parser call sites whose payload is kept or legitimately measured (%d sites, %d audited exceptions)" % (nsites, len(used_exc)),
+         True)
+    R.floor("C16-R5", "sub-parser call sites in parser.rs", nsites, 100)
